@@ -38,6 +38,28 @@ pub fn compile_in(src: &[u8], origin: &str, dir: Option<&Path>) -> Compiled {
     Compiled { rules: if ok { Some(c.build()) } else { None }, patches, warning_codes: codes, errors }
 }
 
+/// Compiles several sources with one compiler, each under its own origin and,
+/// when given, in its own namespace.
+pub fn compile_many(files: &[(String, Vec<u8>, Option<String>)]) -> Compiled {
+    let mut c = yara_x::Compiler::new();
+    let mut r_ok = true;
+    for (origin, text, ns) in files {
+        if let Some(ns) = ns { c.new_namespace(ns); }
+        r_ok &= c.add_source(yara_x::SourceCode::from(text.as_slice()).with_origin(origin)).is_ok();
+    }
+    let mut patches = vec![];
+    let mut codes = vec![];
+    for w in c.warnings() {
+        codes.push(w.code().to_string());
+        for p in w.patches() {
+            patches.push(P { code: w.code().to_string(), origin: p.origin().unwrap_or_default(), start: p.span().start(), end: p.span().end(), repl: p.replacement().to_string() });
+        }
+    }
+    let errors: Vec<String> = c.errors().iter().map(|e| e.code().to_string()).collect();
+    let ok = r_ok && errors.is_empty();
+    Compiled { rules: if ok { Some(c.build()) } else { None }, patches, warning_codes: codes, errors }
+}
+
 /// Is the text a patch replaces what its diagnostic talks about?
 pub fn span_text_ok(src: &[u8], p: &P) -> bool {
     if p.start > p.end || p.end > src.len() { return false; }
@@ -476,6 +498,108 @@ fn include_cases(rng: &mut Rng, index: usize, root: &Path, yr: Option<&str>, sta
     out
 }
 
+/// Several sources compiled together (several `add_source` calls, with or
+/// without a namespace each, all importing the same modules; each file has its
+/// own fixable diagnostics): one (case, replay) per file. The fixes applied per
+/// file must leave EVERY file compiling in the same setup.
+fn multi_source_cases(rng: &mut Rng, index: usize, root: &Path, yr: Option<&str>, stats: &mut Stats) -> Vec<(String, String)> {
+    CLEAN.store(true, std::sync::atomic::Ordering::Relaxed);
+    let n = 2 + rng.below(2) as usize;
+    let gens: Vec<Gen> = (0..n).map(|k| gen_source_named(rng, index + k, &format!("s{}_rule", k))).collect();
+    CLEAN.store(false, std::sync::atomic::Ordering::Relaxed);
+    let with_ns = rng.chance(2, 3);
+    let dir = root.join("multi"); let _ = std::fs::remove_dir_all(&dir); std::fs::create_dir_all(&dir).unwrap();
+    let mut files: Vec<FileObs> = vec![];
+    let mut inputs: Vec<(String, Vec<u8>, Option<String>)> = vec![];
+    for (k, g) in gens.iter().enumerate() {
+        let p = dir.join(format!("s{}.yar", k));
+        std::fs::write(&p, &g.src).unwrap();
+        let ps = p.to_str().unwrap().to_string();
+        inputs.push((ps.clone(), g.src.clone().into_bytes(), if with_ns { Some(format!("ns{}", k)) } else { None }));
+        files.push(FileObs { path: ps, text: g.src.clone().into_bytes(), patches: vec![], fixed: None, yr_after: None });
+    }
+    let sources_json = format!("[{}]", gens.iter().map(|g| json_str(&g.src)).collect::<Vec<_>>().join(","));
+    let c = match catch(AssertUnwindSafe(|| compile_many(&inputs))) {
+        Ok(c) => c,
+        Err(msg) => {
+            stats.inc("multi_source_cases"); stats.inc("impl_fails_multi-source:compiler-panicked");
+            let case = format!("mkCase {} [] [] None None false false false true false", coq_bytes(gens[0].src.as_bytes()));
+            return vec![(case, format!("{{\"index\":{},\"kind\":\"multi-source\",\"sources\":{},\"class\":\"multi-source:compiler-panicked\",\"panic\":{}}}", index, sources_json, json_str(&msg)))];
+        }
+    };
+    let mut class = String::from("none");
+    for p in &c.patches {
+        match files.iter_mut().find(|f| Path::new(&f.path).file_name() == Path::new(&p.origin).file_name()) {
+            Some(f) => f.patches.push(p.clone()),
+            None => { class = format!("multi-source:patch-origin-is-no-file-of-the-compilation:{}", p.code); }
+        }
+    }
+    let mut text_ok = true;
+    for f in &files { for p in &f.patches { if !span_text_ok(&f.text, p) { text_ok = false; if class == "none" { class = format!("multi-source:patch-span-does-not-cover-the-diagnosed-text:{}", p.code); } } } }
+    let mut all_spliced = true;
+    for f in files.iter_mut() {
+        let inb = f.patches.iter().all(|p| p.start <= p.end && p.end <= f.text.len());
+        f.fixed = if inb { splice(&f.text, &f.patches) } else { None };
+        if f.fixed.is_none() { all_spliced = false; if class == "none" { class = "multi-source:patches-overlap-or-out-of-bounds".into(); } }
+    }
+    let (mut recompiles, mut fixed_gone, mut scan_equal) = (true, true, true);
+    let nothing_to_compare = c.rules.is_none() || c.patches.iter().any(|p| !is_equivalence_fix(&p.code)) || c.patches.is_empty();
+    let mut remaining: Vec<String> = vec![];
+    let mut errors_after: Vec<String> = vec![];
+    if all_spliced && !c.patches.is_empty() {
+        let fixed_inputs: Vec<(String, Vec<u8>, Option<String>)> = inputs.iter().zip(files.iter()).map(|(i, f)| (i.0.clone(), f.fixed.clone().unwrap(), i.2.clone())).collect();
+        let c2 = compile_many(&fixed_inputs);
+        errors_after = c2.errors.clone();
+        recompiles = c2.rules.is_some() || c.rules.is_none();
+        let codes: BTreeSet<&String> = c.patches.iter().map(|p| &p.code).collect();
+        remaining = c2.patches.iter().filter(|p| codes.contains(&p.code)).map(|p| p.code.clone()).collect();
+        fixed_gone = remaining.is_empty() || !recompiles;
+        if !nothing_to_compare { if let (Some(r1), Some(r2)) = (&c.rules, &c2.rules) {
+            let mut g = Gen { src: String::new(), needles: vec![], shape: vec![] };
+            for x in &gens { g.needles.extend(x.needles.iter().cloned()); }
+            if scans_equal(rng, &g, r1, r2).is_err() { scan_equal = false; } } }
+        if class == "none" {
+            if !recompiles { class = format!("multi-source:fixed-sources-do-not-compile-together:{}", errors_after.join("+")); }
+            else if !fixed_gone { class = format!("multi-source:diagnostic-still-reported-after-fix:{}", remaining.join("+")); }
+            else if !scan_equal && !nothing_to_compare { class = "multi-source:fix-changes-scan-results".into(); }
+        }
+    }
+    // the real tool: `yr fix warnings [ns0:]s0.yar [ns1:]s1.yar ...` on a copy
+    let mut yr_ok: Option<bool> = None;
+    if let Some(y) = yr {
+        let d3 = root.join("multi_yr"); let _ = std::fs::remove_dir_all(&d3); std::fs::create_dir_all(&d3).unwrap();
+        let mut cmd = std::process::Command::new(y); cmd.arg("fix").arg("warnings");
+        for (k, f) in files.iter().enumerate() {
+            let p = d3.join(Path::new(&f.path).file_name().unwrap()); std::fs::write(&p, &f.text).unwrap();
+            if with_ns { cmd.arg(format!("ns{}:{}", k, p.to_str().unwrap())); } else { cmd.arg(&p); }
+        }
+        if let Ok(st) = cmd.env("RUST_BACKTRACE", "0").stdout(std::process::Stdio::null()).stderr(std::process::Stdio::null()).status() {
+            yr_ok = Some(st.success());
+            for f in files.iter_mut() { f.yr_after = std::fs::read(d3.join(Path::new(&f.path).file_name().unwrap())).ok(); }
+            stats.inc("yr_runs_multi_source");
+        }
+    }
+    stats.inc("multi_source_cases"); if with_ns { stats.inc("multi_source_with_namespaces"); }
+    if class != "none" { stats.inc(&format!("impl_fails_{}", class.splitn(3, ':').take(2).collect::<Vec<_>>().join(":"))); }
+    let mut out = vec![];
+    for f in &files {
+        let tb: Vec<usize> = token_boundaries(&f.text).into_iter().collect();
+        let ok_text = text_ok && f.patches.iter().all(|p| span_text_ok(&f.text, p));
+        let case = format!("mkCase {} {} {} {} {} {} {} {} {} {}",
+            coq_bytes(&f.text), coq_list(&f.patches, coq_patch), coq_list(&tb, |x| format!("{}%nat", x)),
+            coq_option(&f.fixed, |t| coq_bytes(t)),
+            match (&yr_ok, &f.yr_after) { (Some(ok), Some(t)) => format!("(Some ({}, {}))", coq_bool(*ok), coq_bytes(t)), _ => "None".into() },
+            coq_bool(recompiles), coq_bool(fixed_gone), coq_bool(scan_equal), coq_bool(nothing_to_compare), coq_bool(ok_text && class.find("origin").is_none()));
+        let replay = format!("{{\"index\":{},\"kind\":\"multi-source\",\"file\":{},\"namespaces\":{},\"sources\":{},\"patches\":{},\"class\":{},\"fixed\":{},\"recompiles\":{},\"errors_after_fix\":{},\"remaining_fixable\":{},\"yr\":{}}}",
+            index, json_str(Path::new(&f.path).file_name().unwrap().to_str().unwrap()), with_ns, sources_json,
+            format!("[{}]", c.patches.iter().map(|p| format!("{{\"code\":{},\"origin\":{},\"start\":{},\"end\":{},\"replacement\":{}}}", json_str(&p.code), json_str(Path::new(&p.origin).file_name().and_then(|x| x.to_str()).unwrap_or(&p.origin)), p.start, p.end, json_str(&p.repl))).collect::<Vec<_>>().join(",")),
+            json_str(&class), match &f.fixed { Some(t) => json_str(&String::from_utf8_lossy(t)), None => "null".into() }, recompiles, json_str(&errors_after.join(",")), json_str(&remaining.join(",")),
+            match (&yr_ok, &f.yr_after) { (Some(ok), Some(t)) => format!("{{\"exit_ok\":{},\"file_after\":{}}}", ok, json_str(&String::from_utf8_lossy(t))), _ => "null".into() });
+        out.push((case, replay));
+    }
+    out
+}
+
 pub fn run(args: &[String]) -> i32 {
     quiet_panics();
     let seed = arg_u64(args, "--seed", 1);
@@ -500,12 +624,18 @@ pub fn run(args: &[String]) -> i32 {
     let mut pending = corpus(); pending.reverse();
     let mut yr_done = 0usize;
     let mut inc_yr_done = 0usize;
+    let mut multi_yr_done = 0usize;
     let mut index = 0usize;
     while shards.total < n {
         index += 1;
         if pending.is_empty() && index % 6 == 0 {
             let use_yr = if inc_yr_done < n_yr / 3 + 2 { inc_yr_done += 1; yr.as_deref() } else { None };
             for (case, replay) in include_cases(&mut rng, index, &tmp, use_yr, &mut stats) { shards.push(case, replay); }
+            continue;
+        }
+        if pending.is_empty() && index % 6 == 3 {
+            let use_yr = if multi_yr_done < n_yr / 3 + 2 { multi_yr_done += 1; yr.as_deref() } else { None };
+            for (case, replay) in multi_source_cases(&mut rng, index, &tmp, use_yr, &mut stats) { shards.push(case, replay); }
             continue;
         }
         let g = pending.pop().unwrap_or_else(|| gen_source(&mut rng, index));
